@@ -35,6 +35,7 @@ pub broadcast axiom fn axiom_nodeindex_key_model() ensures #[trigger] vstd::std_
 impl NodeIndex<u32> {
     pub fn index(&self) -> (r: usize) ensures r == self.ix as usize { self.ix as usize }
 }
+#[derive(PartialEq, Eq)] pub enum Direction { Outgoing, Incoming }
 pub struct StableGraph<N, E> { pub n: core::marker::PhantomData<N>, pub e: core::marker::PhantomData<E>, pub ghost_nodes: Ghost<Set<NodeIndex<u32>>>, pub ghost_edges: Ghost<Map<(NodeIndex<u32>, NodeIndex<u32>), E>> }
 impl<N, E> StableGraph<N, E> {
     pub open spec fn nodes(&self) -> Set<NodeIndex<u32>> { self.ghost_nodes@ }
@@ -56,6 +57,10 @@ impl<N, E> StableGraph<N, E> {
     #[verifier::external_body]
     pub fn neighbors(&self, a: NodeIndex<u32>) -> (r: Vec<NodeIndex<u32>>)
         ensures forall|t: NodeIndex<u32>| r@.contains(t) <==> self.edges().contains_key((a, t)) { unimplemented!() }
+    #[verifier::external_body]
+    pub fn neighbors_directed(&self, a: NodeIndex<u32>, dir: Direction) -> (r: Vec<NodeIndex<u32>>)
+        ensures dir == Direction::Incoming ==> forall|t: NodeIndex<u32>| r@.contains(t) <==> self.edges().contains_key((t, a)),
+                dir == Direction::Outgoing ==> forall|t: NodeIndex<u32>| r@.contains(t) <==> self.edges().contains_key((a, t)) { unimplemented!() }
     #[verifier::external_body]
     pub fn find_edge(&self, a: NodeIndex<u32>, b: NodeIndex<u32>) -> (r: Option<EdgeIndex<u32>>)
         ensures r is Some <==> self.edges().contains_key((a, b)), r is Some ==> self.endpoints(r->Some_0) == (a, b) { unimplemented!() }
